@@ -1041,10 +1041,14 @@ func c11Class(c *c11Case) string {
 func init() {
 	props["C11"] = func(ctx *Ctx) {
 		ctx.Header("SnapshotCorr")
-		ctx.Res.Rule = "case = (registry shard count, root prefix and tags, history of record / get / Close / Snapshot operations addressed by derivation paths, Snapshot being called on the test scope or on any scope derived from it; every tag map handed to NewTestScope / Tagged is overwritten by the caller as soon as the call returns); generated from the seed; non-trivial = at least one snapshot with at least two entries; distinct by history hash. Streams dup / delim / dot replay the known findings; conc = snapshots concurrent with recording (bounds only); sched = goroutines deriving, recording and closing subscopes under controlled interleavings over the registry's and the metric getters' yield points (final snapshot = tally of all operations)"
+		ctx.Res.Rule = "case = (registry shard count, root prefix and tags, history of record / get / Close / Snapshot operations addressed by derivation paths, Snapshot being called on the test scope or on any scope derived from it; every tag map handed to NewTestScope / Tagged is overwritten by the caller as soon as the call returns); generated from the seed; non-trivial = at least one snapshot with at least two entries; distinct by history hash. Streams dup / delim / dot replay the known findings; conc = snapshots concurrent with recording (bounds only); sched = goroutines deriving, recording and closing subscopes under controlled interleavings over the registry's and the metric getters' yield points (final snapshot = tally of all operations); storm = several goroutines behind a spin barrier take snapshots of one quiescent tree of 64..192 metrics at the same time, each snapshot = the tally exactly"
 		one := func(c *c11Case) {
 			if c.Stream == "conc" {
 				c11Conc(ctx, c)
+				return
+			}
+			if c.Stream == "storm" {
+				c11Storm(ctx, c)
 				return
 			}
 			if c.Stream == "sched" {
@@ -1106,6 +1110,11 @@ func init() {
 		ns := ctx.N(160, 2500)
 		for i := 0; i < ns; i++ {
 			c := c11SchedGen(ctx.R, i)
+			one(&c)
+		}
+		nst := ctx.N(16, 200)
+		for i := 0; i < nst; i++ {
+			c := c11StormGen(ctx.R, i)
 			one(&c)
 		}
 		nc := ctx.N(8, 60)
